@@ -1108,6 +1108,16 @@ static vbi_bool vbi_proxyd_update_services( int dev_idx, PROXY_CLNT * p_new_req,
                      *VBI_GET_SERVICE_P(req, strict) &= tmp_services;
                }
             }
+
+            /* a client which is granted nothing any more (e.g. after a norm change) is not counted on
+            ** new frames in vbi_proxyd_forward_data: it must not keep a pointer into the queue */
+            if (req->all_services == 0)
+            {
+               pthread_mutex_lock(&p_proxy_dev->queue_mutex);
+               while (req->p_sliced != NULL)
+                  vbi_proxy_queue_release_sliced(req);
+               pthread_mutex_unlock(&p_proxy_dev->queue_mutex);
+            }
          }
       }
 
